@@ -101,6 +101,8 @@ def main() -> int:
     else:
         confirmed = violations
 
+    if os.environ.get("VERIF_DUMP"):
+        Path(os.environ["VERIF_DUMP"]).write_text(json.dumps(res.failures, indent=0))
     if confirmed:
         from collections import Counter
 
